@@ -140,9 +140,11 @@ func c03(c *Ctx) {
 				case 1:
 					ackPaths++
 					r.Check(hasOr, "R03.I", "ack-bit:set-on-requireToAck", c.pos(ops[3].cs.Pos()), ops[3].label)
+					c.seqNoAsIs("R03.I", ops[3].label, true, c.pos(ops[3].cs.Pos()))
 				case 0:
 					plainPaths++
 					r.Check(!hasOr, "R03.I", "ack-bit:clear-otherwise", c.pos(ops[3].cs.Pos()), ops[3].label)
+					c.seqNoAsIs("R03.I", ops[3].label, false, c.pos(ops[3].cs.Pos()))
 				default:
 					r.Undecide("R03.I", sprintf("ack-bit:path%d", i+1), c.pos(f.Pos()), "the path's relation to the requireToAck test was not recognised")
 				}
